@@ -139,6 +139,50 @@ func c05Gen(r *rand.Rand, id int) ([][]database.Command, []c05Step) {
 			}
 		}
 	}
+	if id%4 == 3 {
+		// boost tables over the same words with the values exchanged, or the same value at two levels on both words: the
+		// words are in the query, so these are requests with different answers and must not share an entry
+		var ws []string
+		seen := map[string]bool{}
+		for _, c := range dbs[0] {
+			for _, w := range strings.Fields(strings.ToLower(c.Description)) {
+				if len(w) >= 3 && !seen[w] && strings.Trim(w, "abcdefghijklmnopqrstuvwxyz") == "" && len(ws) < 2 {
+					seen[w] = true
+					ws = append(ws, w)
+				}
+			}
+		}
+		if len(ws) == 2 {
+			tables := [][2]string{{"3", "1.5"}, {"1.5", "3"}, {"2", "2"}, {"4", "4"}, {"3", "1.5"}}
+			for _, t := range tables {
+				o := eOpts{AllPlatforms: true, Limit: len(dbs[0]) + 1,
+					Boosts: []eBoost{{Word: ints(ws[0]), F: t[0]}, {Word: ints(ws[1]), F: t[1]}}}
+				steps = append(steps, c05Step{Op: []string{"search", "monsearch"}[len(steps)%2], Query: ints(ws[0] + " " + ws[1]), Opts: &o})
+			}
+		}
+	}
+	if id%50 == 9 {
+		// a history longer than twice the cache's capacity (1000 entries): 2100 distinct requests, then every one of them again
+		var ws []string
+		seen := map[string]bool{}
+		for _, c := range dbs[0] {
+			for _, w := range strings.Fields(strings.ToLower(c.Description + " " + c.Command)) {
+				if len(w) >= 3 && !seen[w] && strings.Trim(w, "abcdefghijklmnopqrstuvwxyz") == "" && len(ws) < 7 {
+					seen[w] = true
+					ws = append(ws, w)
+				}
+			}
+		}
+		if len(ws) >= 3 {
+			for round := 0; round < 2; round++ {
+				for i := 0; i < 2100; i++ {
+					o := eOpts{AllPlatforms: true, Limit: 1 + (i/len(ws))%3, Threshold: -1 - i}
+					steps = append(steps, c05Step{Op: "search", Query: ints(ws[i%len(ws)]), Opts: &o})
+				}
+			}
+			return dbs, steps
+		}
+	}
 	n := 3 + r.Intn(23)
 	for i := 0; i < n; i++ {
 		x := r.Intn(100)
